@@ -31,6 +31,11 @@ CHECKS = {
          "(i) Responses built via the public API over every modelled StatusCode, 0..40 headers, all 256 Set-Cookie attribute combinations and bodies to 64 KiB are serialised and must parse under an independent strict response parser with the registered reason phrase, one line per header/cookie and the exact body, and parse back equal through Response::from_stream. (ii) Conforming responses rendered by a reference encoder with Content-Length or chunked framing (every composition of bodies <=6 bytes into chunks exhaustively; random chunkings above; both hex cases) must be returned exactly under whole/byte-wise/every-split/random read plans. (iii) Client::get/post/put/delete with redirects against scripted loopback servers on 127.x.0.y:80 over chains of 0..5 redirects {301,302,307} with relative and absolute Location: every hop must see the right method, target, Host and body and the client must return the final response.",
          "Trusts the reference response parser/encoder (self-checked: it must read back every generated response) and the scripted reader; the client part needs to bind port 80 on loopback aliases (skipped and reported if impossible). Known finding: stray CRLF after non-empty bodies (pinned by repo tests).",
          "DESIGN.md §5 C07"),
+ "C10": ("exploration",
+         "bounded-exhaustive enumeration of frame headers + proptest frame generation, differential against a reference RFC 6455 codec under enumerated read segmentations; isolated worker for huge claimed lengths",
+         "Through the cfg-gated hook, Humphrey's frame encoder is compared byte-for-byte with a reference RFC 6455 §5.2 encoder over FIN x RSV x opcodes x mask x boundary and random payload lengths (to 70 KiB quick / 1 MiB thorough), and its decoder with a reference decoder: all 65 536 two-byte headers with nothing / truncated / complete remainders, every split point of short frames, sampled splits of long ones; truncation must give ReadError, reserved opcodes InvalidOpcode, and decode(encode(f)) = f with the payload unmasked. Truncated frames claiming up to 2^64-1 bytes run in a child process with an allocation counter: error, no abort, bounded allocation. Message::to_frame checked for text/binary at the boundary lengths.",
+         "Trusts the reference codec in common/ws.rs and the scripted reader. Frame.payload is taken to be the on-the-wire payload (the encoder does not apply the mask), as the code documents.",
+         "DESIGN.md §5 C10"),
 }
 
 NOT_YET = "check not built yet (work in progress; see DESIGN.md §5 for the intended design)"
